@@ -172,16 +172,12 @@ def run(ix, R):
     site = FI + '::parse_priors'
     with R.guard('4.parse', 'ARG', site, 'parse'):
         f = ix.func(site)
-        r = one([n for n in walk_no_nested(f.node) if isinstance(n, ast.Return)], 'return')
-        src = '\n'.join(unparse(s) for s in f.body())
-        need = ['func_parse = ast.parse(prior_string)', 'actual_func = func_parse.body[0].value',
-                'function_name = actual_func.func.id',
-                'func_args = {kw.arg: ast.literal_eval(kw.value) for kw in actual_func.keywords}',
-                'return (function_name, func_args)']
-        miss = [x for x in need if x not in src]
-        R.check('4.parse', 'ARG', site,
-                'prior text -> (callee name, {keyword: literal_eval(value)}) with no renaming or defaults',
-                not miss, key='; '.join(miss), detail='missing: %s' % miss, loc=f.loc())
+        from sa.helpers import need
+        need(R, '4.parse', 'ARG', site,
+             'prior text -> (callee name, {keyword: literal_eval(value)}) with no renaming or defaults', f,
+             ['V_p = ast.parse(V_s)', 'V_f = V_p.body[0].value', 'V_n = V_f.func.id',
+              'V_a = {V_k.arg: ast.literal_eval(V_k.value) for V_k in V_f.keywords}', 'return (V_n, V_a)'],
+             binding={'V_s': f.params()[0]})
     site = FA + '::create_prior'
     with R.guard('4.create', 'ARG', site, 'create'):
         f = ix.func(site)
@@ -219,13 +215,16 @@ def run(ix, R):
     site = CF + '::ClassFactory._collect_priors'
     with R.guard('4.collect', 'TAB', site, 'collection of prior classes'):
         f = ix.func(site)
-        src = unparse(f.node)
-        ok = 'self._collect_classes(module, Prior)' in src
+        from sa.helpers import need
+        from sa.pattern import find
         sb = ix.func(CF + '::ClassFactory.setup_batteries_included')
-        ok2 = 'self._prior_klasses.update(self._collect_priors(priors))' in unparse(sb.node) and \
-            'from taurex.core import priors' in unparse(sb.node)
+        b1, m1 = find(f.node, ['self._collect_classes(V_m, Prior)'])
+        b2, m2 = find(sb.node, ['from taurex.core import priors', 'self._prior_klasses.update(self._collect_priors(priors))'])
+        pk = ix.func(CF + '::ClassFactory.priorKlasses')
+        b3, m3 = find(pk.node, ['return self._prior_klasses'])
         R.check('4.collect', 'TAB', site, 'priorKlasses = every Prior subclass of taurex.core.priors',
-                ok and ok2, key='collect', detail='collection differs', loc=f.loc())
+                b1 is not None and b2 is not None and b3 is not None, key='; '.join(m1 + m2 + m3),
+                detail='missing %s' % (m1 + m2 + m3), loc=f.loc())
     # default prior (shared with C07.4)
     from rules.C07 import compile_fn
     compile_fn(ix, R)
@@ -248,6 +247,7 @@ MUTANTS = [
     ('iface-drop', PR, "    def boundaries(self):\n        return (self.sample(0.1), self.sample(0.9))\n", "", '3.iface'),
 ]
 EQUIVALENTS = [
+    ('parse-rename', FI, r're:\bactual_func\b', 'call_node'),
     ('uni-scale-temp', PR, 'self._scale = self._up_bounds - self._low_bounds', 'self._scale = -self._low_bounds + self._up_bounds'),
     ('prior-pow', PR, 'return 10 ** value', 'return math.pow(10, value)'),
 ]
